@@ -251,44 +251,61 @@ theorem recipient_index_valid (r : Result) (c a : Nat) (hc : c ∈ recipients r 
 theorem nonrecipient_no_index (r : Result) (c a : Nat) (hc : c ∉ recipients r a) : packageIndex r c a = none :=
   indexOfAux_of_not_mem hc 0
 
-/-- a recipient extracts its entry from the package and decrypts the author's key, given the ECIES round-trip law -/
-theorem recipient_decrypts {K E : Type} (enc : Nat → K → E) (dec : Nat → E → Option K)
-    (henc : ∀ c k, dec c (enc c k) = some k) (r : Result) (c a : Nat) (key : K) (hc : c ∈ recipients r a) :
-    obtainKey enc dec r c a key = some key := by
+/-- the package is positional: as long as the recipient list, entry `i` is recipient `i`'s — the empty placeholder of
+a recipient without a usable public key included (dropping it would shift every later recipient) -/
+theorem package_positional {K E : Type} (enc : Nat → K → E) (bad : Nat → Bool) (r : Result) (a : Nat) (key : K) :
+    (keyPackage enc bad r a key).length = (recipients r a).length ∧
+    ∀ (i c : Nat), (recipients r a)[i]? = some c →
+      (keyPackage enc bad r a key)[i]? = some (if bad c then none else some (enc c key)) := by
+  refine ⟨by simp [keyPackage], ?_⟩
+  intro i c hc
+  simp [keyPackage, List.getElem?_map, hc]
+
+/-- a recipient with a usable public key extracts its entry from the package and decrypts the author's key, given the
+ECIES round-trip law — whatever the public keys of the OTHER recipients look like -/
+theorem recipient_decrypts {K E : Type} (enc : Nat → K → E) (dec : Nat → E → Option K) (bad : Nat → Bool)
+    (henc : ∀ c k, dec c (enc c k) = some k) (r : Result) (c a : Nat) (key : K) (hc : c ∈ recipients r a)
+    (hb : bad c = false) : obtainKey enc dec bad r c a key = some key := by
   obtain ⟨i, hi, hget⟩ := recipient_index_valid r c a hc
   unfold obtainKey
   rw [hi]
-  simp only [keyFromPackage, keyPackage, List.getElem?_map, hget, Option.map_some]
+  unfold keyFromPackage
+  simp only
+  rw [(package_positional enc bad r a key).2 i c hget, hb]
   exact henc c key
 
 /-- a non-recipient gets nothing: no slot, and no entry of the package opens with its key (ECIES wrong-key law) -/
-theorem nonrecipient_cannot_decrypt {K E : Type} (enc : Nat → K → E) (dec : Nat → E → Option K)
+theorem nonrecipient_cannot_decrypt {K E : Type} (enc : Nat → K → E) (dec : Nat → E → Option K) (bad : Nat → Bool)
     (hwrong : ∀ c c' k, c ≠ c' → dec c' (enc c k) = none) (r : Result) (c a : Nat) (key : K)
     (hc : c ∉ recipients r a) :
-    obtainKey enc dec r c a key = none ∧ ∀ e ∈ keyPackage enc r a key, dec c e = none := by
+    obtainKey enc dec bad r c a key = none ∧ ∀ e, some e ∈ keyPackage enc bad r a key → dec c e = none := by
   constructor
   · unfold obtainKey
     rw [nonrecipient_no_index r c a hc]
   · intro e he
-    obtain ⟨c', hc', rfl⟩ := List.mem_map.mp he
-    exact hwrong c' c key (fun e => hc (e ▸ hc'))
+    obtain ⟨c', hc', heq⟩ := List.mem_map.mp he
+    split at heq
+    · cases heq
+    · cases heq
+      exact hwrong c' c key (fun e => hc (e ▸ hc'))
 
-/-- keys reach solvers: whoever is assigned a (non-placeholder) flip of author `a` obtains `a`'s key -/
-theorem assigned_obtains_key {K E : Type} (enc : Nat → K → E) (dec : Nat → E → Option K)
+/-- keys reach solvers: whoever is assigned a (non-placeholder) flip of author `a` and has a usable public key obtains
+`a`'s key -/
+theorem assigned_obtains_key {K E : Type} (enc : Nat → K → E) (dec : Nat → E → Option K) (bad : Nat → Bool)
     (henc : ∀ c k, dec c (enc c k) = some k)
     (h : lottery fl q p1 p2 p3 = .ok r) (hsize : p3.length * q < 999999) (hperm : ∀ c, c < fl.length → c ∈ p3)
     (c a f : Nat) (key : K) (hf : f ∈ look r.short c ∨ (f ∈ look r.long c ∧ ¬ PlaceholderLong fl r c))
-    (ha : authorOf fl f = some a) : obtainKey enc dec r c a key = some key :=
-  recipient_decrypts enc dec henc r c a key ((assigned_iff_recipient h hsize hperm c a).mp ⟨f, hf, ha⟩)
+    (ha : authorOf fl f = some a) (hb : bad c = false) : obtainKey enc dec bad r c a key = some key :=
+  recipient_decrypts enc dec bad henc r c a key ((assigned_iff_recipient h hsize hperm c a).mp ⟨f, hf, ha⟩) hb
 
 /-- … and nobody else does -/
-theorem unassigned_obtains_nothing {K E : Type} (enc : Nat → K → E) (dec : Nat → E → Option K)
+theorem unassigned_obtains_nothing {K E : Type} (enc : Nat → K → E) (dec : Nat → E → Option K) (bad : Nat → Bool)
     (hwrong : ∀ c c' k, c ≠ c' → dec c' (enc c k) = none)
     (h : lottery fl q p1 p2 p3 = .ok r) (hsize : p3.length * q < 999999) (hperm : ∀ c, c < fl.length → c ∈ p3)
     (c a : Nat) (key : K)
     (hno : ¬ ∃ f, (f ∈ look r.short c ∨ (f ∈ look r.long c ∧ ¬ PlaceholderLong fl r c)) ∧ authorOf fl f = some a) :
-    obtainKey enc dec r c a key = none ∧ ∀ e ∈ keyPackage enc r a key, dec c e = none :=
-  nonrecipient_cannot_decrypt enc dec hwrong r c a key
+    obtainKey enc dec bad r c a key = none ∧ ∀ e, some e ∈ keyPackage enc bad r a key → dec c e = none :=
+  nonrecipient_cannot_decrypt enc dec bad hwrong r c a key
     (fun hc => hno ((assigned_iff_recipient h hsize hperm c a).mpr hc))
 
 /-! ## determinism, termination, no panic -/
@@ -405,10 +422,13 @@ example : ∃ f, (f ∈ look exR2.short 0 ∨ (f ∈ look exR2.long 0 ∧ ¬ Pla
     authorOf exFl2 f = some 7 :=
   (assigned_iff_recipient ex_topup (by decide) (by decide) 0 7).mpr (by decide)
 -- the ideal cipher satisfies both ECIES laws
-example : obtainKey (fun c (k : Nat) => (c, k)) (fun c e => if e.1 = c then some e.2 else none) exR 1 0 77 = some 77 :=
-  recipient_decrypts _ _ (by intro c k; simp) exR 1 0 77 (by decide)
-example : obtainKey (fun c (k : Nat) => (c, k)) (fun c e => if e.1 = c then some e.2 else none) exR 1 1 77 = none :=
-  (nonrecipient_cannot_decrypt _ _ (by intro c c' k h; simp [h]) exR 1 1 77 (by decide)).1
+example : obtainKey (fun c (k : Nat) => (c, k)) (fun c e => if e.1 = c then some e.2 else none) (· == 0) exR 1 0 77 = some 77 :=
+  recipient_decrypts _ _ _ (by intro c k; simp) exR 1 0 77 (by decide) (by decide)
+-- candidate 0 has no usable public key: its slot (position 1 of author 0's package) is the empty placeholder and
+-- candidate 1 still finds its own entry at position 2
+example : keyPackage (fun c (k : Nat) => (c, k)) (· == 0) exR 0 77 = [some (2, 77), none, some (1, 77)] := by decide
+example : obtainKey (fun c (k : Nat) => (c, k)) (fun c e => if e.1 = c then some e.2 else none) (· == 0) exR 1 1 77 = none :=
+  (nonrecipient_cannot_decrypt _ _ _ (by intro c c' k h; simp [h]) exR 1 1 77 (by decide)).1
 
 /-- the placeholder exemption in the property text is necessary: with three one-flip authors and quota 1 candidate 1
 is handed the placeholder flip 0 (author: candidate 0) in its long list without being a key recipient of candidate 0 -/
